@@ -12,6 +12,8 @@ use crate::{
 };
 use tracing::{debug, trace, warn};
 
+#[cfg(feature = "verif-hooks")]
+use crate::verif_hooks::instant;
 use instant::{Duration, Instant};
 use std::collections::vec_deque::Drain;
 use std::collections::VecDeque;
@@ -1246,6 +1248,48 @@ impl<T: Config> P2PSession<T> {
                 }
             }
             DesyncDetection::Off => (),
+        }
+    }
+}
+
+#[cfg(feature = "verif-hooks")]
+impl<T: Config> P2PSession<T> {
+    /// Verification hook: (disconnected, last received frame) per player handle.
+    pub fn verif_connect_status(&self) -> Vec<(bool, Frame)> {
+        self.local_connect_status
+            .iter()
+            .map(|c| (c.disconnected, c.last_frame))
+            .collect()
+    }
+
+    /// Verification hook: (last confirmed frame, last saved frame, next spectator frame).
+    pub fn verif_sync_frames(&self) -> (Frame, Frame, Frame) {
+        (
+            self.sync_layer.last_confirmed_frame(),
+            self.sync_layer.last_saved_frame(),
+            self.next_spectator_frame,
+        )
+    }
+
+    /// Verification hook: sizes of all internal buffers.
+    pub fn verif_buffers(&self) -> crate::verif_hooks::SessionBuffers {
+        let mut endpoints = Vec::new();
+        let mut addrs: Vec<_> = self.player_reg.remotes.values().collect();
+        addrs.sort_by_key(|e| e.handles().first().copied());
+        for e in addrs {
+            endpoints.push(e.verif_buffers(false));
+        }
+        let mut specs: Vec<_> = self.player_reg.spectators.values().collect();
+        specs.sort_by_key(|e| e.handles().first().copied());
+        for e in specs {
+            endpoints.push(e.verif_buffers(true));
+        }
+        crate::verif_hooks::SessionBuffers {
+            event_queue: self.event_queue.len(),
+            outgoing_local_inputs: self.outgoing_local_inputs.len(),
+            pending_local_inputs: self.pending_local_inputs.len(),
+            local_checksum_history: self.local_checksum_history.len(),
+            endpoints,
         }
     }
 }
